@@ -212,6 +212,62 @@ def gen_usage_session(rng):
     return lines
 
 
+def gen_reply_session(rng):
+    """the reply builder (stun_usage_ice_conncheck_create_reply) for requests with USERNAMEs of 1..513 bytes, in the four ICE
+    dialects, into output buffers around every size at which an attribute stops fitting"""
+    from checks.C04 import agent_line
+    compat = rng.randrange(4)
+    flags = rng.choice([S.F_SHORT, S.F_SHORT | S.F_FPR, S.F_SHORT | S.F_NOALIGN, S.F_SHORT | S.F_SW | S.F_FPR])
+    ulen = rng.choice([1, 2, 4, 36, 37, 40, 64, 100, 255, 513])
+    user = bytes(rng.randrange(33, 127) for _ in range(ulen))
+    pw = b"pass"
+    extra = [(S.PRIORITY, b"\0\0\1\0"), (rng.choice([S.CONTROLLING, S.CONTROLLED]), struct.pack(">Q", rng.getrandbits(64)))]
+    m = S.authentic(rng, compat, flags, 0, 1, S.rand_txid(rng, True), user, None, None, pw, extra)
+    lines = [agent_line(compat, flags), f"stun val {S.hx(m)} {user.hex()}={pw.hex()}"]
+    base = 20 + 12 + 4 + ulen + (-ulen % 4)
+    caps = sorted({max(0, base + d) for d in rng.sample(range(-24, 64), 10)} | {rng.randrange(0, 2049) for _ in range(3)})
+    for cap in caps:
+        fam = rng.choice([4, 4, 6])
+        ip = S.rand_bytes(rng, 4 if fam == 4 else 16)
+        lines.append(f"stun ureply {cap} {fam} {rng.getrandbits(16)} {S.hx(ip)} {rng.choice([16, 28, 128])} "
+                     f"{rng.randrange(2)} {rng.getrandbits(64)} {rng.randrange(4)}")
+    return lines
+
+
+def reply_oracle(session, out):
+    """a reply reported complete (plen > 0) fits the buffer, is well-formed and echoes the request's USERNAME"""
+    req = None
+    flags = 0
+    for line, o in zip(session, out):
+        w = line.split()
+        if w[1] == "agent":
+            flags = int(w[3], 16)
+        if w[1] == "val" and o.startswith("status 0"):
+            req = S.unhx(w[2])
+        if w[1] != "ureply" or not o.startswith("ret") or req is None:
+            continue
+        ow = o.split()
+        plen, cap = int(ow[3]), int(w[2])
+        if "CANARY" in o:
+            return f"{line[:60]}: bytes outside the output buffer were modified"
+        if plen == 0:
+            continue
+        if plen > cap:
+            return f"{line[:60]}: reply length {plen} exceeds the buffer ({cap})"
+        buf = S.unhx(ow[7])[:plen]
+        padded = not (flags & S.F_NOALIGN)
+        if S.verdict(buf, padded) != len(buf):
+            return f"{line[:60]}: the finished reply of {plen} bytes is not a well-formed STUN message"
+        ra, qa = S.attrs_of(buf, padded), S.attrs_of(req, padded)
+        qu = [(o_, l_) for t, o_, l_ in qa if t == S.USERNAME]
+        ru = [(o_, l_) for t, o_, l_ in ra if t == S.USERNAME]
+        is_success = struct.unpack(">H", buf[:2])[0] == 0x0101      # a 487 role-conflict error reply does not echo it
+        if is_success and qu and (not ru or buf[ru[0][0]:ru[0][0] + ru[0][1]] != req[qu[0][0]:qu[0][0] + qu[0][1]]):
+            return (f"{line[:60]}: reply of {plen} bytes reported complete but the request's {qu[0][1]}-byte USERNAME is "
+                    f"{'missing' if not ru else 'different'}")
+    return None
+
+
 def sessions_for(tier, rng):
     sessions, kinds = [], {}
 
@@ -231,6 +287,8 @@ def sessions_for(tier, rng):
                     add("class-method-compat", gen_session(rng, cls, method, (compat, flags), None, wk))
     for _ in range(2000 if quick else 12000):
         add("usage-builders", gen_usage_session(rng))
+    for _ in range(600 if quick else 6000):
+        add("reply-builder", gen_reply_session(rng))
     # every cap 0..2048 (thorough: for 200 sequences; quick: one pass with a stride)
     step = 3 if quick else 1
     for rep in range(1 if quick else 8):
@@ -499,7 +557,7 @@ def run(tier, seed):
                     ofail.append({"session": s, "why": "implementation crashed / aborted (sanitizer report?)",
                                   "stderr": errs.get(i, ("", 0, ""))[2][-1500:]})
                     continue
-                why = oracle(s, o)
+                why = oracle(s, o) or reply_oracle(s, o)
                 if why:
                     ofail.append({"session": s, "impl_out": [x[:300] for x in o], "why": why})
                 for line, x in zip(s, o):
@@ -530,7 +588,7 @@ def run(tier, seed):
             chk.cov["rule"] = ("one evaluation = one builder op or read-back; non-trivial = distinct (init line, op) pairs whose "
                                "append/finish succeeded on the real library")
             chk.cov["samples"] = [[l[:120] for l in Ss[len(corpus)][:6]], [l[:120] for l in Ss[-1][:6]]]
-            caps = [int(s[1].split()[2]) for s in gen if len(s) > 1]
+            caps = [int(s[1].split()[2]) for s in gen if len(s) > 1 and s[1].split()[2].isdigit() and len(s[1].split()[2]) < 8]
             chk.cov["generator_distribution"] = {
                 "session_kinds": kinds, "op_kinds": opk, "result_kinds": rets, "corpus": len(corpus),
                 "caps": {"min": min(caps), "max": max(caps), "distinct": len(set(caps)),
